@@ -176,8 +176,20 @@
 (declare-fun bodyvars (Body) SS)
 ; the stack of bound-variable lists
 (declare-datatypes ((BVS 0)) (((bvnil) (bvpush (bvtop SS) (bvrest BVS)))))
-; block-nesting depth of emitted code (loops and non-empty breakable blocks), as nesting_depth computes it
-(declare-fun ndepth (Code) Int)
+; block-nesting depth of emitted code: every loop (goal or head unification) is one block, a breakable block with a
+; non-empty body is one more (its `for _ in [1]:` wrapper); index form over the statement list
+(define-fun-rec clen ((c Code)) Int (ite ((_ is cnil) c) 0 (+ 1 (clen (ctl c)))))
+(assert (forall ((c Code)) (! (>= (clen c) 0) :pattern ((clen c)))))
+(define-fun-rec cnth ((c Code) (i Int)) Stmt (ite (<= i 0) (chd c) (cnth (ctl c) (- i 1))))
+(define-funs-rec ((ndk ((c Code) (k Int)) Int) (ndst ((s Stmt)) Int))
+ ((ite (<= k 0) 0 (ite (>= (ndk c (- k 1)) (ndst (cnth c (- k 1)))) (ndk c (- k 1)) (ndst (cnth c (- k 1)))))
+  (ite ((_ is SForeach) s) (+ 1 (ndk (fc s) (clen (fc s))))
+  (ite ((_ is SUnify) s) (+ 1 (ndk (uc s) (clen (uc s))))
+  (ite ((_ is SBlock) s) (+ (ite (= (bc s) cnil) 0 1) (ndk (bc s) (clen (bc s)))) 0)))))
+; L-NDEPTH-NONNEG (proved by induction in vf/lemmas.py)
+(assert (forall ((c Code) (k Int)) (! (>= (ndk c k) 0) :pattern ((ndk c k)))))
+(assert (forall ((s Stmt)) (! (>= (ndst s) 0) :pattern ((ndst s)))))
+(define-fun ndepth ((c Code)) Int (ndk c (clen c)))
 ; the non-None entries of head_args_by_pos, in order (index form)
 (define-fun-rec hpnames ((hp (Array Int String)) (hpn (Array Int Bool)) (k Int)) SS
   (ite (<= k 0) (as seq.empty SS)
